@@ -108,10 +108,12 @@ def plan(tier):
 
     # message clause: an ExtensionNotLoaded raised by a gate travels unchanged through the parser's step functions
     pl.units += [u for u in common.pushdown_units() if u.uid.startswith(("PD.arguments.identifier", "PD.command.identifier"))]
+    pl.units += common.driver_units()
 
     def label_filter(u, label):
         if u.uid.startswith("PD."):
-            return label.endswith("lookup-error-reaches-the-funnel-unchanged")
+            return label.endswith("lookup-error-reaches-the-funnel-unchanged") or label in (
+                "P8.message-is-the-text-of-the-exception-raised-below", "P8.failure-gives-line-N-message", "P8.parse-never-raises")
         if u.uid.startswith("G2."):
             return label.startswith("gate.") or label in ("frame.loaded_extensions", "inv", "iscomplete.inv", "init.state")
         return not label.startswith("X.")
